@@ -735,4 +735,265 @@ theorem batchLoop_fuel_origin (dec : Bytes → MPR (List Metric)) (fmt : Fmt)
         have := hd pkt ms rest (by rw [he])
         exact ih rest _ _ (by omega)
 
+/-! ## TCP framing: the splitter is resumable, so the chunking of the stream does not matter -/
+
+/-- canonical fuel -/
+def S (m : Nat) (b : Bytes) : List Bytes × Bytes × Bool := splitF m (b.length + 1) b
+
+theorem deframe_eq_S (m : Nat) (b : Bytes) : deframe m b = S m b := rfl
+
+theorem splitF_fuel (m : Nat) : ∀ (f g : Nat) (b : Bytes), b.length < f → b.length < g → splitF m f b = splitF m g b := by
+  intro f
+  induction f with
+  | zero => intro g b h; omega
+  | succ f ih =>
+    intro g b hf hg
+    cases g with
+    | zero => omega
+    | succ g =>
+      simp only [splitF]
+      split
+      · rfl
+      · split
+        · rfl
+        · split
+          · rfl
+          · rename_i h1 h2 h3
+            have hl : (b.drop (4 + rdLE (b.take 4))).length < b.length := by simp; omega
+            rw [ih g _ (by omega) (by omega)]
+
+/-- one step of the frame splitter -/
+theorem S_unfold (m : Nat) (b : Bytes) :
+    S m b = if b.length < 4 then ([], b, false)
+      else if rdLE (b.take 4) > m then ([], b, true)
+      else if b.length < 4 + rdLE (b.take 4) then ([], b, false)
+      else ((b.drop 4).take (rdLE (b.take 4)) :: (S m (b.drop (4 + rdLE (b.take 4)))).1,
+            (S m (b.drop (4 + rdLE (b.take 4)))).2.1, (S m (b.drop (4 + rdLE (b.take 4)))).2.2) := by
+  have e : S m b = splitF m (b.length + 1) b := rfl
+  rw [e]
+  simp only [splitF]
+  split
+  · rfl
+  · split
+    · rfl
+    · split
+      · rfl
+      · have hl : (b.drop (4 + rdLE (b.take 4))).length < b.length := by simp; omega
+        rw [splitF_fuel m b.length ((b.drop (4 + rdLE (b.take 4))).length + 1) _ hl (Nat.lt_succ_self _)]
+        rfl
+
+
+theorem take_append_ge {α : Type} (a b : List α) (n : Nat) (h : n ≤ a.length) : (a ++ b).take n = a.take n := by
+  rw [List.take_append_of_le_length h]
+
+theorem drop_append_ge {α : Type} (a b : List α) (n : Nat) (h : n ≤ a.length) : (a ++ b).drop n = a.drop n ++ b := by
+  rw [List.drop_append_of_le_length h]
+
+/-- the splitter can be resumed: splitting `a ++ b` = splitting `a`, then going on with (rest of a) ++ b -/
+theorem S_resume (m : Nat) : ∀ (n : Nat) (a b : Bytes), a.length ≤ n → (S m a).2.2 = false →
+    S m (a ++ b) = ((S m a).1 ++ (S m ((S m a).2.1 ++ b)).1, (S m ((S m a).2.1 ++ b)).2.1, (S m ((S m a).2.1 ++ b)).2.2) := by
+  intro n
+  induction n with
+  | zero =>
+    intro a b h _
+    have : a = [] := List.eq_nil_of_length_eq_zero (by omega)
+    subst this
+    rw [S_unfold m []]; simp
+  | succ n ih =>
+    intro a b hn hflag
+    rw [S_unfold m a] at hflag ⊢
+    split at hflag
+    · rename_i h1; simp [h1]
+    · rename_i h1
+      split at hflag
+      · simp at hflag
+      · rename_i h2
+        split at hflag
+        · rename_i h3; simp [h1, h2, h3]
+        · rename_i h3
+          simp only [h1, h2, h3, if_false]
+          have h4 : 4 ≤ a.length := by omega
+          have hlen : 4 + rdLE (a.take 4) ≤ a.length := by omega
+          have hd : (a.drop (4 + rdLE (a.take 4))).length ≤ n := by simp; omega
+          have ih' := ih (a.drop (4 + rdLE (a.take 4))) b hd hflag
+          rw [S_unfold m (a ++ b)]
+          have t4 : (a ++ b).take 4 = a.take 4 := take_append_ge a b 4 h4
+          have e1 : ¬ (a ++ b).length < 4 := by simp; omega
+          have e3 : ¬ (a ++ b).length < 4 + rdLE (a.take 4) := by simp; omega
+          rw [t4]
+          simp only [e1, h2, e3, if_false]
+          rw [drop_append_ge a b _ hlen, ih']
+          have body : ((a ++ b).drop 4).take (rdLE (a.take 4)) = (a.drop 4).take (rdLE (a.take 4)) := by
+            rw [drop_append_ge a b 4 h4, take_append_ge _ _ _ (by simp; omega)]
+          rw [body]
+          simp
+
+/-- a framing error stays: bytes that arrive later change neither the frames delivered before it nor the verdict -/
+theorem S_error_persists (m : Nat) : ∀ (n : Nat) (a b : Bytes), a.length ≤ n → (S m a).2.2 = true →
+    (S m (a ++ b)).1 = (S m a).1 ∧ (S m (a ++ b)).2.2 = true := by
+  intro n
+  induction n with
+  | zero =>
+    intro a b h hf
+    have : a = [] := List.eq_nil_of_length_eq_zero (by omega)
+    subst this
+    rw [S_unfold m []] at hf; simp at hf
+  | succ n ih =>
+    intro a b hn hflag
+    rw [S_unfold m a] at hflag ⊢
+    split at hflag
+    · simp at hflag
+    · rename_i h1
+      have h4 : 4 ≤ a.length := by omega
+      have t4 : (a ++ b).take 4 = a.take 4 := take_append_ge a b 4 h4
+      have e1 : ¬ (a ++ b).length < 4 := by simp; omega
+      split at hflag
+      · rename_i h2
+        rw [S_unfold m (a ++ b), t4]
+        have e1' : ¬ (a.length + b.length < 4) := by omega
+        simp [e1', h1, h2]
+      · rename_i h2
+        split at hflag
+        · simp at hflag
+        · rename_i h3
+          have hlen : 4 + rdLE (a.take 4) ≤ a.length := by omega
+          have hd : (a.drop (4 + rdLE (a.take 4))).length ≤ n := by simp; omega
+          have ih' := ih (a.drop (4 + rdLE (a.take 4))) b hd hflag
+          have e3 : ¬ (a ++ b).length < 4 + rdLE (a.take 4) := by simp; omega
+          rw [S_unfold m (a ++ b), t4]
+          simp only [e1, h1, h2, h3, e3, if_false]
+          rw [drop_append_ge a b _ hlen]
+          have body : ((a ++ b).drop 4).take (rdLE (a.take 4)) = (a.drop 4).take (rdLE (a.take 4)) := by
+            rw [drop_append_ge a b 4 h4, take_append_ge _ _ _ (by simp; omega)]
+          rw [body, ih'.1, ih'.2]
+          simp
+
+/-- what the splitter leaves behind is an incomplete frame: shorter than header + largest body -/
+theorem S_rest_short (m : Nat) : ∀ (n : Nat) (a : Bytes), a.length ≤ n → (S m a).2.2 = false → (S m a).2.1.length < 4 + m := by
+  intro n
+  induction n with
+  | zero =>
+    intro a h _
+    have : a = [] := List.eq_nil_of_length_eq_zero (by omega)
+    subst this
+    rw [S_unfold m []]; simp; omega
+  | succ n ih =>
+    intro a hn hflag
+    rw [S_unfold m a] at hflag ⊢
+    split at hflag
+    · rename_i h1; simp [h1]; omega
+    · rename_i h1
+      split at hflag
+      · simp at hflag
+      · rename_i h2
+        split at hflag
+        · rename_i h3; simp [h1, h2, h3]; omega
+        · rename_i h3
+          simp only [h1, h2, h3, if_false]
+          exact ih _ (by simp; omega) hflag
+
+
+/-- `c` is the connection state after the receiver has been offered the stream prefix `p` -/
+@[reducible] def After (m : Nat) (c : Conn) (p : Bytes) : Prop :=
+  c.frames = (S m p).1 ∧ ((S m p).2.2 = false → c.ending = none ∧ c.buf = (S m p).2.1) ∧
+    ((S m p).2.2 = true → c.ending = some .framing)
+
+theorem recv_after (m bufSize : Nat) (hb : m + 4 ≤ bufSize) :
+    ∀ (fuel : Nat) (c : Conn) (avail p : Bytes), avail.length < fuel → After m c p →
+      After m (recv m bufSize fuel c avail) (p ++ avail) := by
+  intro fuel
+  induction fuel with
+  | zero => intro c avail p h; omega
+  | succ f ih =>
+    intro c avail p hf hA
+    obtain ⟨hfr, hok, herr⟩ := hA
+    simp only [recv]
+    cases hflag : (S m p).2.2 with
+    | true =>
+      have he := herr hflag
+      have hs : c.ending.isSome = true := by rw [he]; rfl
+      rw [if_pos hs]
+      obtain ⟨p1, p2⟩ := S_error_persists m p.length p avail (Nat.le_refl _) hflag
+      refine ⟨?_, ?_, fun _ => he⟩
+      · rw [hfr, p1]
+      · intro h; rw [p2] at h; cases h
+    | false =>
+      obtain ⟨hnone, hbuf⟩ := hok hflag
+      have hs : ¬ (c.ending.isSome = true) := by rw [hnone]; simp
+      rw [if_neg hs]
+      by_cases ha : avail = []
+      · rw [if_pos ha]; subst ha; rw [List.append_nil]
+        refine ⟨hfr, fun _ => ⟨hnone, hbuf⟩, ?_⟩
+        intro h; rw [hflag] at h; cases h
+      · rw [if_neg ha]
+        have hshort := S_rest_short m p.length p (Nat.le_refl _) hflag
+        rw [← hbuf] at hshort
+        have hfree : ¬ (bufSize - c.buf.length = 0) := by omega
+        rw [if_neg hfree]
+        have hres := S_resume m p.length p (avail.take (bufSize - c.buf.length)) (Nat.le_refl _) hflag
+        rw [← hbuf, ← hfr] at hres
+        have hS : splitF m ((c.buf ++ avail.take (bufSize - c.buf.length)).length + 1) (c.buf ++ avail.take (bufSize - c.buf.length))
+            = S m (c.buf ++ avail.take (bufSize - c.buf.length)) := rfl
+        simp only [hS]
+        have hsplit : p ++ avail = (p ++ avail.take (bufSize - c.buf.length)) ++ avail.drop (bufSize - c.buf.length) := by
+          rw [List.append_assoc, List.take_append_drop]
+        cases hf2 : (S m (c.buf ++ avail.take (bufSize - c.buf.length))).2.2 with
+        | true =>
+          simp only [if_true]
+          have hflag' : (S m (p ++ avail.take (bufSize - c.buf.length))).2.2 = true := by rw [hres]; exact hf2
+          obtain ⟨p1, p2⟩ := S_error_persists m _ (p ++ avail.take (bufSize - c.buf.length)) (avail.drop (bufSize - c.buf.length)) (Nat.le_refl _) hflag'
+          rw [hsplit]
+          refine ⟨?_, ?_, fun _ => rfl⟩
+          · rw [p1, hres]
+          · intro h; rw [p2] at h; cases h
+        | false =>
+          simp only [Bool.false_eq_true, if_false]
+          rw [hsplit]
+          apply ih
+          · have : avail.length ≠ 0 := by intro h; exact ha (List.eq_nil_of_length_eq_zero h)
+            simp; omega
+          · refine ⟨?_, ?_, ?_⟩
+            · rw [hres]
+            · intro _; exact ⟨hnone, by rw [hres]⟩
+            · intro h; rw [hres] at h; simp only [] at h; rw [hf2] at h; cases h
+
+theorem foldl_after (m bufSize : Nat) (hb : m + 4 ≤ bufSize) :
+    ∀ (chunks : List Bytes) (c : Conn) (p : Bytes), After m c p →
+      After m (chunks.foldl (fun c ch => recv m bufSize (ch.length + 1) c ch) c) (p ++ chunks.flatten) := by
+  intro chunks
+  induction chunks with
+  | nil => intro c p h; simpa using h
+  | cons ch chs ih =>
+    intro c p h
+    simp only [List.foldl_cons, List.flatten_cons]
+    rw [← List.append_assoc]
+    exact ih _ _ (recv_after m bufSize hb _ c ch p (Nat.lt_succ_self _) h)
+
+theorem after_init (m : Nat) : After m {} [] := by
+  rw [After, S_unfold m []]; simp
+
+
+theorem S_frames (m : Nat) (bodies : List Bytes) (hm : ∀ b ∈ bodies, b.length ≤ m) (h32 : ∀ b ∈ bodies, b.length < 2 ^ 32) :
+    S m (catMap frame bodies) = (bodies, [], false) := by
+  induction bodies with
+  | nil => rw [S_unfold]; simp [catMap]
+  | cons b bs ih =>
+    have hb := hm b (by simp)
+    have hb32 := h32 b (by simp)
+    have ih' := ih (fun x hx => hm x (by simp [hx])) (fun x hx => h32 x (by simp [hx]))
+    rw [S_unfold]
+    simp only [catMap, frame, List.append_assoc]
+    have t4 : (le 4 b.length ++ (b ++ catMap frame bs)).take 4 = le 4 b.length := take_le_append 4 _ _
+    have hv : rdLE (le 4 b.length) = b.length := rdLE_le_of_lt (by simpa using hb32)
+    have e1 : ¬ (le 4 b.length ++ (b ++ catMap frame bs)).length < 4 := by simp [le_length]
+    have e3 : ¬ (le 4 b.length ++ (b ++ catMap frame bs)).length < 4 + b.length := by simp [le_length]
+    have e2 : ¬ b.length > m := by omega
+    rw [t4, hv]
+    simp only [e1, e2, e3, if_false]
+    have d4 : (le 4 b.length ++ (b ++ catMap frame bs)).drop 4 = b ++ catMap frame bs := drop_le_append 4 _ _
+    have dn : (le 4 b.length ++ (b ++ catMap frame bs)).drop (4 + b.length) = catMap frame bs := by
+      rw [← List.drop_drop, d4, List.drop_left]
+    rw [d4, dn, List.take_left]
+    rw [ih']
+
 end SH.Wire
